@@ -98,6 +98,9 @@ def suspects(comp):
     return out
 
 
+_CONSTANT_TURN = [0]
+
+
 def wrap(formula, kind, tag):
     body = formula[1:]
     if kind == 'nosuch':
@@ -106,7 +109,9 @@ def wrap(formula, kind, tag):
         # (text with the characters str.format() reads: the code of the formula is quoted in the error message)
         return f'=NOSUCH({body},"{{a}} {{0}} {{")'
     if kind == 'nosuch-constant':
-        return f'=TAU({body})'             # no such function, but python's math module has a constant of that name
+        # no such function, but python's math module has a constant of that name
+        _CONSTANT_TURN[0] += 1
+        return f'={("TAU", "INF", "E", "NAN")[_CONSTANT_TURN[0] % 4]}({body})'
     if kind == 'nosuch-keyword':
         return f'=LAMBDA({body})'          # an unknown function whose name python cannot even parse as a call
     if kind == 'failname':
